@@ -45,7 +45,11 @@ def _inlines(inls, c: _Ctx, deleted=False) -> str:
     for i in inls:
         t = i[0]
         if t == "r":
-            out.append(_run(word(i[1]), deleted))
+            w_ = word(i[1])
+            if i[1] % 3 == 0:        # one word split over two runs: runs must be concatenated without separator
+                out.append(_run(w_[:4], deleted) + _run(w_[4:], deleted))
+            else:
+                out.append(_run(w_, deleted))
         elif t == "tab":
             out.append("<w:r><w:tab/></w:r>")
         elif t == "br":
